@@ -290,6 +290,15 @@ def run_formulas(case, bus, ex):
     j("extract_normalized_convection_scale_from_difficulty", Gn.extract_normalized_convection_scale_from_difficulty(b1 * M * N * D, num_spatial_dims=D, num_points=N, maximum_absolute=M), b1, "inverse")
     j("reduce_normalized_gradient_norm_scale_to_difficulty", Gn.reduce_normalized_gradient_norm_scale_to_difficulty(b2, num_spatial_dims=D, num_points=N, maximum_absolute=M), b2 * M * N ** 2 * D, "formula")
     j("extract_normalized_gradient_norm_scale_from_difficulty", Gn.extract_normalized_gradient_norm_scale_from_difficulty(b2 * M * N ** 2 * D, num_spatial_dims=D, num_points=N, maximum_absolute=M), b2, "inverse")
+    # deprecated alias of the simple difficulty stepper must build the same stepper
+    import warnings, jax.numpy as jnp
+    with warnings.catch_warnings():
+        warnings.simplefilter("ignore")
+        o_, dv_ = int(rng.integers(0, 4)), U(-2, 2)
+        a_ = Gn.DiffultyLinearStepperSimple(1, 16, difficulty=dv_, order=o_)
+        b_ = Gn.DifficultyLinearStepperSimple(1, 16, difficulty=dv_, order=o_)
+        x_ = jnp.asarray(rng.normal(size=(1, 16)))
+        bus.judge("conversion_formulas", float(np.max(np.abs(np.asarray(a_(x_)) - np.asarray(b_(x_))))), 0.0, ("DiffultyLinearStepperSimple alias", "alias"), witness=dict(info, function="deprecated alias"))
     nn = (U(-1, 1), b1, b2)
     nd = (nn[0], b1 * M * N * D, b2 * M * N ** 2 * D)
     j("reduce_normalized_nonlinear_scales_to_difficulty", UT.reduce_normalized_nonlinear_scales_to_difficulty(nn, num_spatial_dims=D, num_points=N, maximum_absolute=M), nd, "formula")
